@@ -240,3 +240,57 @@ Definition make_pair_member_spec (wrapped : option bool) : ty :=
 (* [dcl.struct.bind] + [tuple.helper]: std::tuple supports structured bindings; [tuple.elem] / [pair.astuple]: get<T> *)
 Definition tuple_structured_binding_spec : bool := true.
 Definition get_by_type_spec (is_pair : bool) : bool := true.
+
+(* ================================================================================================ *)
+(** * [pairs.pair], [tuple.cnstr], [tuple.creation]: element transfer on construction *)
+(* "initializes first with std::forward<U1>(x)": an object element is move-constructed from a non-const rvalue and
+   copy-constructed from everything else; a reference element binds to the argument's object when [dcl.init.ref] allows
+   it, otherwise the constructor does not participate (Constraints: is_constructible_v<T1, U1>) *)
+Definition init_spec (K a : ty) : option built :=
+  match rf K, cst K, rf a, cst a with
+  | RNone, _, RR, false => Some (Constructed true)
+  | RNone, _, _, _ => Some (Constructed false)
+  | RL, false, RL, false => Some Aliased
+  | RL, false, _, _ => None
+  | RL, true, _, _ => Some Aliased
+  | RR, false, RR, false => Some Aliased
+  | RR, true, RR, _ => Some Aliased
+  | RR, _, _, _ => None
+  end.
+(* [pairs.pair] converting constructors.  pair(const pair<U1,U2>& p): Constraints is_constructible_v<T1, const U1&>,
+   initialises first with p.first (type const U1&: a const lvalue for an object member, the referenced object as a
+   non-const-added lvalue for a reference member).  pair(pair<U1,U2>&& p): Constraints is_constructible_v<T1, U1>,
+   initialises first with std::forward<U1>(p.first) (U1&&: an xvalue for object and rvalue-reference members, an lvalue
+   for lvalue-reference members).  A non-const rvalue source selects the second when it participates. *)
+Definition conv_copy_expr (sk : ty) : ty := match rf sk with RNone => mkty true RL | _ => mkty (cst sk) RL end.
+Definition conv_move_expr (sk : ty) : ty := match rf sk with RL => mkty (cst sk) RL | _ => mkty (cst sk) RR end.
+Definition pair_conv_spec (dk sk sc : ty) : option built :=
+  match rf sc, cst sc with
+  | RR, false =>
+      match init_spec dk (conv_move_expr sk) with
+      | Some r => Some r
+      | None => init_spec dk (conv_copy_expr sk)
+      end
+  | _, _ => init_spec dk (conv_copy_expr sk)
+  end.
+(* [tuple.cnstr]: tuple(const Types&...) / tuple(UTypes&&...): element i is initialised with std::forward<Ui>(ui);
+   Constraints sizeof...(Types) == sizeof...(UTypes) *)
+Fixpoint tuple_ctor_all_spec (Ks args : list ty) : option (list built) :=
+  match Ks, args with
+  | [], [] => Some []
+  | K :: Ks', a :: args' =>
+      match init_spec K a, tuple_ctor_all_spec Ks' args' with
+      | Some r, Some rs => Some (r :: rs)
+      | _, _ => None
+      end
+  | _, _ => None
+  end.
+(* [pairs.spec] make_pair / [tuple.creation] make_tuple: an object element of the decayed type, initialised with
+   std::forward<T>(t);  forward_as_tuple: tuple<TTypes&&...>, every element a reference to the argument *)
+Definition make_value_spec (a : ty) : option built := init_spec (mkty false RNone) a.
+Definition forward_as_tuple_spec (a : ty) : option (ty * built) :=
+  match rf a with
+  | RL => Some (mkty (cst a) RL, Aliased)
+  | RR => Some (mkty (cst a) RR, Aliased)
+  | RNone => None
+  end.
